@@ -50,6 +50,9 @@ type Case struct {
 	// zero-width first and last buckets, which is where -Inf and +Inf are counted) and the int64
 	// extremes among the recorded values stand for -Inf and +Inf
 	Extreme bool `json:"extreme,omitempty"`
+	// Both: a plain AND a cached reporter are configured; conservation is judged over what the two
+	// received together (the property does not say which of them is handed a delta)
+	Both bool `json:"both,omitempty"`
 }
 
 var deltaPool = []int64{0, 1, 1, 1, 2, 3, -1, -2, 1 << 31, -(1 << 31), 9223372036854775807, -9223372036854775808, 1000}
@@ -59,6 +62,7 @@ func gen(t *rapid.T) Case {
 	c.NSub = rapid.IntRange(0, 2).Draw(t, "nsub")
 	c.Caps = rapid.SampledFrom([]int{0, 0, 0, 1, 2, 3}).Draw(t, "caps")
 	c.Extreme = rapid.IntRange(0, 3).Draw(t, "extreme") == 0
+	c.Both = rapid.IntRange(0, 5).Draw(t, "both") == 0
 	if rapid.IntRange(0, 9).Draw(t, "filler?") == 0 {
 		c.Filler = rapid.IntRange(14, 24).Draw(t, "filler")
 	}
@@ -125,7 +129,10 @@ func run(c Case) (pbt.Outcome, error) {
 	var out pbt.Outcome
 	log := &rec.Log{}
 	opts := tally.ScopeOptions{OmitCardinalityMetrics: true}
-	if c.Cached {
+	if c.Both {
+		opts.Reporter = &rec.Stats{L: log, Child: 1, Caps: rec.CapsOf(c.Caps)}
+		opts.CachedReporter = &rec.Cached{L: log, Child: 2, Caps: rec.CapsOf(c.Caps)}
+	} else if c.Cached {
 		opts.CachedReporter = &rec.Cached{L: log, Caps: rec.CapsOf(c.Caps)}
 	} else {
 		opts.Reporter = &rec.Stats{L: log, Caps: rec.CapsOf(c.Caps)}
